@@ -58,25 +58,51 @@ TYPES = ["numpy.ndarray", "builtins.int", "builtins.float", "builtins.str", "bui
 
 HYB_NAMES = NAMES + ["linear", "head", "scale", "running"]
 HYB_CLASSES = ["HybridNet", "HybridNetB"]
+# attribute names that are PREFIXES OF EACH OTHER (a listed name removes exactly the attribute of that name, never one whose
+# name merely starts with it, at save time and at load time, in both stores): short names, the same name plus a suffix
+# (letters, '_', '.', digits), digit names, and short names that occur nowhere but are a prefix of names that do
+PREFIX_FAMILIES = [
+    ["a", "a_b", "a.b", "ab", "a0", "a_", "a_b_c"],
+    ["x", "x1", "x10", "x_model", "x.y"],
+    ["data", "data_raw", "dataset", "data.meta", "dat", "data0"],
+    ["_dset", "_dset_meta", "dset", "dset2", "_d", "dset_"],
+    ["w0", "w0_init", "w", "w00", "w0.bias"],
+    ["meta", "metadata", "meta_path", "met", "meta_"],
+    ["b", "b_model", "bb", "b1", "b_model_state"],
+    ["0", "00", "01", "0_a", "1", "10", "100"],
+]
 
 
-def gen_hybrid(r, depth, width, child=False):
+def _strict_prefix_pairs(names):
+    """(short, long) pairs among `names` with long starting with short"""
+    return [(s, l) for s in names for l in names if l != s and l.startswith(s)]
+
+
+def gen_prefix_pool(r):
+    """name pool of one prefix-sharing case: two families (+ two ordinary names)"""
+    fams = r.sample(PREFIX_FAMILIES, 2)
+    return [n for f in fams for n in f] + r.sample(["k", "n", "shape", "cfg"], 2)
+
+
+def gen_hybrid(r, depth, width, child=False, names=None):
     """nn.Module + AutoSerialize hybrid: entries (name, role, value); sub-modules (plain torch modules or hybrids, saved
     whole), parameters, buffers, plain attributes (any value kind; below a ROOT hybrid also attribute-nested pure
     AutoSerialize objects, which _recursive_save / _recursive_load descend into).  Names come from the same pool as
     everywhere else, so a skipped name can be a parameter here and a plain attribute one level down."""
     ent = []
-    for nm in r.sample(HYB_NAMES, r.randint(3, min(len(HYB_NAMES), width + 2))):
+    # (torch rejects '.' in the names of parameters / buffers / sub-modules, which plain setattr on a Module also registers)
+    pool_h = HYB_NAMES if names is None else [n for n in names if "." not in n] + ["linear", "head"]
+    for nm in r.sample(pool_h, r.randint(3, min(len(pool_h), width + 2))):
         role = r.choice(["module", "param", "buffer", "plain", "plain"])
         sd = r.randrange(10 ** 6)
         if role == "module":
-            v = gen_hybrid(r, 0, 3, True) if (depth > 0 and r.random() < 0.3) else ["module", r.choice(["linear", "seq", "tiny", "tiny-nobuf"]), sd]
+            v = gen_hybrid(r, 0, 3, True, names) if (depth > 0 and r.random() < 0.3) else ["module", r.choice(["linear", "seq", "tiny", "tiny-nobuf"]), sd]
         elif role == "param":
             v = ["tensor", r.choice(["float32", "float64"]), r.choice([[2], [3], [2, 2], []]), r.random() < 0.8, True, sd]
         elif role == "buffer":
             v = ["tensor", r.choice(["float32", "int64", "bool"]), r.choice([[2], [3], [1, 2], []]), False, False, sd]
         elif not child and depth > 0 and r.random() < 0.35:
-            v = gen_skip_graph(r, depth - 1, width)
+            v = gen_skip_graph(r, depth - 1, width, names=names)
         else:
             v = G.gen_value(r, 1, False, 3, allow_obj=False)
             if v[0] == "obj":
@@ -85,19 +111,20 @@ def gen_hybrid(r, depth, width, child=False):
     return ["hyb", r.choice(HYB_CLASSES), ent]
 
 
-def gen_skip_graph(r, depth, width, cont_obj=False):
+def gen_skip_graph(r, depth, width, cont_obj=False, names=None):
     fields = []
-    names = r.sample(NAMES, r.randint(2, width))
+    pool_n = names
+    names = r.sample(pool_n or NAMES, r.randint(2, width if pool_n is None else width + 2))
     cls = r.choice(["NodeA", "NodeB", "NodeC"])
-    if r.random() < 0.15:
+    if pool_n is None and r.random() < 0.15:
         # attrs-decorated class (with or without slots): declared fields only; a skipped field is simply unset after load
         cls = r.choice(G.ATTRS_CLASSES)
         names = r.sample(G.ATTRS_FIELDS, r.randint(2, min(width, len(G.ATTRS_FIELDS))))
     for nm in names:
-        if depth > 0 and r.random() < 0.4:
-            v = gen_skip_graph(r, depth - 1, width, cont_obj)
+        if depth > 0 and r.random() < (0.4 if pool_n is None else 0.25):
+            v = gen_skip_graph(r, depth - 1, width, cont_obj, pool_n)
         elif r.random() < 0.06:
-            v = gen_hybrid(r, 0, 3, child=True)       # a hybrid below the root: _serialize_value saves it whole (module kind)
+            v = gen_hybrid(r, 0, 3, child=True, names=pool_n)       # a hybrid below the root: _serialize_value saves it whole (module kind)
         elif cont_obj and r.random() < 0.3:
             v = [r.choice(["list", "tuple"]), [gen_skip_graph(r, 0, 3), ["str", "s"]]] if r.random() < 0.6 else \
                 ["dict", [["k", gen_skip_graph(r, 0, 3)]]]
@@ -107,6 +134,43 @@ def gen_skip_graph(r, depth, width, cont_obj=False):
                 v = ["int", 1]
         fields.append([nm, v])
     return ["obj", cls, fields]
+
+
+def rekey_dicts(r, spec, pool_n):
+    """dict-valued attributes of a prefix-sharing case get their keys from the same pool (in place)"""
+    if spec[0] in ("obj", "hyb"):
+        for ent in spec[2]:
+            rekey_dicts(r, ent[-1], pool_n)
+    elif spec[0] in ("list", "tuple"):
+        for v in spec[1]:
+            rekey_dicts(r, v, pool_n)
+    elif spec[0] == "dict":
+        keys = r.sample(pool_n, min(len(pool_n), len(spec[1])))
+        for ent, k in zip(spec[1], keys):
+            ent[0] = k
+            rekey_dicts(r, ent[1], pool_n)
+
+
+def level_names(spec, acc):
+    """attribute names per attribute-nested object, root first"""
+    if spec[0] in ("obj", "hyb"):
+        acc.append([ent[0] for ent in spec[2]])
+        for ent in spec[2]:
+            level_names(ent[-1], acc)
+    return acc
+
+
+def prefix_survivors(spec, skipped, acc):
+    """value kinds of the attributes that survive next to a skipped name that is a strict prefix of theirs (same object)"""
+    if spec[0] in ("obj", "hyb"):
+        for ent in spec[2]:
+            nm, v = ent[0], ent[-1]
+            if nm in skipped:
+                continue
+            if any(nm.startswith(s) and nm != s for s in skipped):
+                acc.append(v[0] if spec[0] == "obj" else "hybrid-" + ent[1])
+            prefix_survivors(v, skipped, acc)
+    return acc
 
 
 def names_in(spec, acc):
@@ -128,8 +192,12 @@ def gen_cases(ctx: Ctx):
     for j in range(n):
         cont_obj = j % 11 == 10
         hyb_root = (not cont_obj) and j % 4 == 1
-        spec = gen_hybrid(r, r.choice([1, 2]), r.choice([3, 4, 5])) if hyb_root else \
-            gen_skip_graph(r, r.choice([1, 2, 2, 3]), r.choice([3, 4, 5]), cont_obj)
+        # 40% of the cases: names that are prefixes of each other, a short one (present or not) in every skip list
+        pool_n = gen_prefix_pool(r) if j % 5 in (2, 4) else None
+        spec = gen_hybrid(r, r.choice([1, 2]), r.choice([3, 4, 5]), names=pool_n) if hyb_root else \
+            gen_skip_graph(r, r.choice([1, 2, 2, 3]), r.choice([3, 4, 5]), cont_obj, pool_n)
+        if pool_n:
+            rekey_dicts(r, spec, pool_n)
         present = sorted(names_in(spec, set()))
         # names of the root hybrid that live in its registries (parameters, buffers, sub-modules): 1-2 of them in every pick
         reg = [nm for nm, role, v in spec[2] if role != "plain" or v[0] in ("module", "hyb") or (v[0] == "tensor" and v[4])] if hyb_root else []
@@ -138,6 +206,20 @@ def gen_cases(ctx: Ctx):
         mode = r.choice(["save", "load", "both", "both", "none-absent"])
         if hyb_root and mode == "none-absent":
             mode = r.choice(["save", "load", "both"])
+        if pool_n:
+            # short names first: names that are a strict prefix of another name of the SAME object (root first), then of any
+            # level; names of the pool that occur nowhere but are a prefix of one that does
+            lv = level_names(spec, [])
+            sh_same = sorted({a for nms in lv[:1] for a, _ in _strict_prefix_pairs(nms)}) or \
+                sorted({a for nms in lv for a, _ in _strict_prefix_pairs(nms)})
+            sh_any = sorted({a for a, _ in _strict_prefix_pairs(present)})
+            sh_abs = [a for a in pool_n if a not in present and any(b.startswith(a) for b in present)]
+            base = pick
+            pick = lambda: (r.sample(sh_same, r.randint(1, min(2, len(sh_same)))) if sh_same else []) + \
+                (r.sample(sh_any, 1) if sh_any and r.random() < 0.5 else []) + \
+                (r.sample(sh_abs, 1) if sh_abs and r.random() < 0.4 else []) + \
+                [x for x in base() if x not in ABSENT or r.random() < 0.3]  # noqa: E731
+            mode = r.choice(["save", "load", "load", "both", "both"])
         sn_s = pick() if mode in ("save", "both") else []
         sn_l = pick() if mode in ("load", "both") else []
         if mode == "none-absent":
@@ -156,7 +238,8 @@ def gen_cases(ctx: Ctx):
                         r.choice([1, 1, 2])) if (j % 7 == 3 and not hyb_root) else []
         cases.append({"id": "s%04d" % j, "prop": "C14", "label": "graph", "spec": spec, "cfg": G.gen_cfg(r),
                       "skip_save_names": sn_s, "skip_save_types": st_s, "skip_load_names": sn_l, "skip_load_types": st_l,
-                      "save_eq_load": (not st_s) and (not st_l) and not cont_obj and j % 2 == 0, "container_objects": cont_obj,
+                      "save_eq_load": (not st_s) and (not st_l) and not cont_obj and (j % 2 == 0 or bool(pool_n)), "container_objects": cont_obj,
+                      "prefix_names": bool(pool_n),
                       "mode14": mode, "dispatch": False, "abc_types": abc, "hybrid_root": hyb_root, "hybrid_registry_names": reg})
     return cases
 
@@ -167,7 +250,9 @@ def run(ctx: Ctx):
                                               "AutoSerialize._deserialize_container", "load"])
     ctx.hash_sources("diffractive_imaging/ptychography.py", ["Ptychography.save"])
     ctx.cov["rule"] = (
-        "cases: attribute-nested object graphs (depth<=3, 8 attribute names recurring at several depths, plain classes and 15% "
+        "cases: attribute-nested object graphs (depth<=3, 8 attribute names recurring at several depths - in 40% of the cases instead names and dict keys "
+        "from two of eight PREFIX-SHARING families (name / name+suffix / name.x / digits / short absent names) with 1-2 strict prefixes of sibling "
+        "names in every skip list -, plain classes and 15% "
         "attrs-decorated classes with/without slots; every 4th root is an nn.Module + AutoSerialize HYBRID with sub-modules, "
         "parameters, buffers (registry entries) and plain attributes incl. attribute-nested plain objects, 1-2 registry names in "
         "every skip list, names only; 6% of the other attribute values are hybrids saved whole) x skip configuration (names present/absent at save time, load time or both; "
@@ -209,6 +294,13 @@ def _run(ctx: Ctx):
         present = names_in(case["spec"], set())
         skipped_present = (set(case["skip_save_names"]) | set(case["skip_load_names"])) & present
         ctx.dist("skip-time/" + case["mode14"])
+        ctx.dist("names/" + ("prefix-sharing" if case.get("prefix_names") else "disjoint"))
+        for where, sk in (("save", case["skip_save_names"]), ("load", case["skip_load_names"])):
+            for kd in prefix_survivors(case["spec"], set(sk), []):
+                ctx.dist("prefix-survivor/at-%s/%s/%s" % (where, cfg["store"], kd))
+        if case.get("prefix_names") and res.get("save_eq_load_done"):
+            for kd in prefix_survivors(case["spec"], set(case["skip_save_names"]) | set(case["skip_load_names"]), []):
+                ctx.dist("prefix-survivor/save-vs-load/%s/%s" % (cfg["store"], kd))
         ctx.dist("skip-types/%d" % len(case["skip_save_types"]))
         ctx.dist("skip-load-types/%d" % len(case.get("skip_load_types", [])))
         if case.get("abc_types"):
